@@ -15,3 +15,22 @@ func HarnessC19Rules() {
 	verif.Reach("parsed")
 	_ = rs
 }
+
+// HarnessC19BadRules: rule files with lines that do not translate into a valid pattern (unclosed
+// character classes, stray escapes) next to valid ones, used by a Pack over a tree with several
+// entries - so every rule is matched more than once. Pack returns; it never panics.
+var c19BadRules = []string{"logs/*.[oa", "[", "a[", "[]", "\\", "a\\", "[^", "[a-", "**/[", "![", "*.[oa\na\n", "a\n[\nb\n", "[a-]", "[]a]"}
+
+func HarnessC19BadRules() {
+	packWorld()
+	envWriteFile(packSrc+"/a", 0644, 1000, "A")
+	envWriteFile(packSrc+"/b", 0644, 1000, "B")
+	envMkdir(packSrc+"/logs", 0755, 1000)
+	envWriteFile(packSrc+"/logs/x.o", 0644, 1000, "O")
+	envWriteFile(packSrc+"/.terraformignore", 0644, 1000, c19BadRules[verif.Choose("rules", len(c19BadRules))])
+	p := &Packer{applyTerraformIgnore: true}
+	envBaseline()
+	_, err := p.Pack(packSrc, envWriter())
+	verif.Reach("bad-rules-packed")
+	verif.ObserveBool("ok", err == nil)
+}
